@@ -305,8 +305,9 @@ def op_branchcount(rng, env, t, ctr):
 
 
 def op_connective(rng, env, t, ctr):
-    swap = {"*": "-*", "-*": "*", "+": "&", "&": "+", "up": None, "dn": None}
-    ps = [p for p, s in positions(t) if swap.get(s[0])]
+    swap = {"*": "-*", "-*": "*", "+": "&", "&": "+", "up": "dn", "dn": "up"}
+    # a shift can change direction only when it is an identity shift (both directions are well-formed then)
+    ps = [p for p, s in positions(t) if swap.get(s[0]) and (s[0] not in ("up", "dn") or s[1] == s[2])]
     if not ps:
         return None
     p = rng.choice(ps)
@@ -526,6 +527,26 @@ def keyclash():
     return out
 
 
+def dualheads():
+    """every constructor against its DUAL with everything else equal - tensor / lolli, plus / with, and the identity
+    shifts m /\\ m and m \\/ m (the only shifts that are well-formed in both directions) - at the top, behind an alias,
+    inside a recursive type, in left-operand position and in a branch; all ordered pairs of the 30 queries per mode"""
+    out = []
+    for m in MODES:
+        def x(c, k):
+            return {"ten": "1 * %s" % k, "lol": "1 -* %s" % k, "plu": "+{a : %s}" % k, "wit": "&{a : %s}" % k,
+                    "up": "%s /\\ %s %s" % (m, m, k), "dn": "%s \\/ %s %s" % (m, m, k)}[c]
+        lines, q = [], 0
+        for c in ("ten", "lol", "plu", "wit", "up", "dn"):
+            lines.append("type A%s = %s" % (c, x(c, "1")))
+            lines.append("type R%s = +{next : %s, stop : 1}" % (c, x(c, "R" + c)))
+            for body in (x(c, "1"), "A" + c, "R" + c, "(%s) * 1" % x(c, "1"), "&{p : %s, q : 1}" % x(c, "1")):
+                lines.append("type Q%d = %s" % (q, body))
+                q += 1
+        out.append(("hand:dualheads-" + m, "\n".join(lines)))
+    return out
+
+
 def deep(p, q):
     """two unary recursive types of periods p and q: the comparison visits ~ lcm(p, q) distinct pairs
     at recursion depth ~ 2 * lcm(p, q) (the case that needs quadratic fuel)"""
@@ -545,6 +566,8 @@ def stream(seed, n_cases, pool_max, env_size=6):
     for p in sorted(glob.glob(os.path.join(C.CORPUS, "eq", "*.grits"))):
         yield "corpus:" + os.path.basename(p), "hand", open(p, "rb").read().decode("latin1"), None
     for i, t in keyclash():
+        yield i, "hand", t, None
+    for i, t in dualheads():
         yield i, "hand", t, None
     yield "hand:deep-7-8", "hand", deep(7, 8), None
     yield "hand:deep-40-41", "hand", deep(40, 41), None
